@@ -498,6 +498,10 @@ func (b *broker) syncDelSubscription(sub *subscription) {
 func (b *broker) syncUnsubscribe(subscriber *wamp.Session, msg *wamp.Unsubscribe) {
 	subID := msg.Subscription
 	sub, ok := b.subscriptions[subID]
+	if ok {
+		// A session can only remove its own subscription.
+		_, ok = sub.subscribers[subscriber]
+	}
 	if !ok {
 		b.trySend(subscriber, &wamp.Error{
 			Type:    msg.MessageType(),
